@@ -47,26 +47,40 @@ func vEmit(m vmap) {
 	}
 }
 
+// vTakeRecords returns every batch published so far.  PublishData sends synchronously (from workers that ProcessSegments
+// joins), so when ProcessSegments has returned every batch is either still in the channel or already appended under
+// vPubMu by the drain goroutine, which receives only while holding that mutex: nothing can be "in flight" between the two.
 func vTakeRecords() [][]*DataRecord {
-	// PublishData sends synchronously on a buffered channel; give the drain goroutine time to empty it
-	for i := 0; i < 2000 && len(PubRecordsChan) > 0; i++ {
-		time.Sleep(50 * time.Microsecond)
-	}
-	time.Sleep(100 * time.Microsecond)
 	vPubMu.Lock()
 	defer vPubMu.Unlock()
+	for {
+		select {
+		case r := <-PubRecordsChan:
+			vPubRecords = append(vPubRecords, r)
+			continue
+		default:
+		}
+		break
+	}
 	out := vPubRecords
 	vPubRecords = nil
 	return out
 }
 
 func vTakeClient() []ClientUpdate {
-	for i := 0; i < 2000 && len(clientMessageChan) > 0; i++ {
-		time.Sleep(50 * time.Microsecond)
-	}
-	time.Sleep(100 * time.Microsecond)
 	vClientMu.Lock()
 	defer vClientMu.Unlock()
+	for {
+		select {
+		case u := <-clientMessageChan:
+			if vClientKeep {
+				vClientMsgs = append(vClientMsgs, u)
+			}
+			continue
+		default:
+		}
+		break
+	}
 	out := vClientMsgs
 	vClientMsgs = nil
 	return out
@@ -124,11 +138,20 @@ func TestMain(m *testing.M) {
 		// harness-owned publication channels: no ZMQ sockets are bound by SetPubRecords/SetPubSummaries
 		PubRecordsChan = make(chan []*DataRecord, 500)
 		PubSummariesChan = make(chan []*DataRecord, 500)
-		go func() {
-			for r := range PubRecordsChan {
+		go func() { // drain: receive only while holding the mutex (see vTakeRecords)
+			for {
 				vPubMu.Lock()
-				vPubRecords = append(vPubRecords, r)
+				got := false
+				select {
+				case r := <-PubRecordsChan:
+					vPubRecords = append(vPubRecords, r)
+					got = true
+				default:
+				}
 				vPubMu.Unlock()
+				if !got {
+					time.Sleep(200 * time.Microsecond)
+				}
 			}
 		}()
 		go func() {
@@ -141,12 +164,21 @@ func TestMain(m *testing.M) {
 	}
 	if os.Getenv("VERIF_REAL_CLIENTUPDATER") == "" {
 		go func() {
-			for u := range clientMessageChan {
+			for {
 				vClientMu.Lock()
-				if vClientKeep {
-					vClientMsgs = append(vClientMsgs, u)
+				got := false
+				select {
+				case u := <-clientMessageChan:
+					if vClientKeep {
+						vClientMsgs = append(vClientMsgs, u)
+					}
+					got = true
+				default:
 				}
 				vClientMu.Unlock()
+				if !got {
+					time.Sleep(200 * time.Microsecond)
+				}
 			}
 		}()
 	}
